@@ -3,7 +3,10 @@
 package agent
 
 import (
+	"errors"
 	"time"
+
+	"github.com/hashicorp/memberlist"
 
 	"github.com/hashicorp/serf/serf"
 )
@@ -171,5 +174,125 @@ func VfC25_EventStream() {
 		if match[i] && !dropped[i] {
 			vfAssert("C25.estream.delivered.unless.overflow", seen[i] == 1)
 		}
+	}
+}
+
+// ---- reply headers carry the request's sequence number -----------------------
+
+func vfSymErr(tag string) error {
+	if vfBool(tag) {
+		return errors.New("failed")
+	}
+	return nil
+}
+
+func vfAgUserEvent(a *Agent, name string, payload []byte, coalesce bool) error { return vfSymErr("agent.err") }
+func vfAgForceLeave(a *Agent, node string) error                               { return vfSymErr("agent.err") }
+func vfAgJoin(a *Agent, addrs []string, replay bool) (int, error)              { return int(vfU8("agent.n")), vfSymErr("agent.err") }
+func vfAgKey(a *Agent, key string) (*serf.KeyResponse, error) {
+	return &serf.KeyResponse{Messages: map[string]string{}, NumNodes: 1}, vfSymErr("agent.err")
+}
+func vfAgListKeys(a *Agent) (*serf.KeyResponse, error) {
+	return &serf.KeyResponse{Messages: map[string]string{}, Keys: map[string]int{}, PrimaryKeys: map[string]int{}, NumNodes: 1}, vfSymErr("agent.err")
+}
+func vfAgErr(a *Agent) error { return vfSymErr("agent.err") }
+func vfAgQuery(a *Agent, name string, payload []byte, params *serf.QueryParam) (*serf.QueryResponse, error) {
+	if vfBool("agent.err") {
+		return nil, errors.New("failed")
+	}
+	return serf.VfNewQueryResponse(2, params.RequestAck, 3, 4, time.Hour), nil
+}
+func vfAgStats(a *Agent) map[string]map[string]string { return map[string]map[string]string{"agent": {"name": "self"}} }
+func vfAgReg(a *Agent, eh EventHandler)               {}
+func vfAgSetTags(a *Agent, tags map[string]string) error { return vfSymErr("agent.err") }
+
+func vfStubEncodeTagsSmall(s *serf.Serf, tags map[string]string) []byte { return []byte{255} }
+
+// VfC25_Seq: every command handler (real bodies; the agent operations behind
+// them replaced by stubs with arbitrary outcome) answers with the sequence
+// number of the request, exactly once, whatever the outcome; a body that does
+// not decode ends the connection without a reply.
+//
+//vf:override (*github.com/hashicorp/serf/cmd/serf/command/agent.Agent).UserEvent = github.com/hashicorp/serf/cmd/serf/command/agent.vfAgUserEvent
+//vf:override (*github.com/hashicorp/serf/cmd/serf/command/agent.Agent).ForceLeave = github.com/hashicorp/serf/cmd/serf/command/agent.vfAgForceLeave
+//vf:override (*github.com/hashicorp/serf/cmd/serf/command/agent.Agent).ForceLeavePrune = github.com/hashicorp/serf/cmd/serf/command/agent.vfAgForceLeave
+//vf:override (*github.com/hashicorp/serf/cmd/serf/command/agent.Agent).Join = github.com/hashicorp/serf/cmd/serf/command/agent.vfAgJoin
+//vf:override (*github.com/hashicorp/serf/cmd/serf/command/agent.Agent).InstallKey = github.com/hashicorp/serf/cmd/serf/command/agent.vfAgKey
+//vf:override (*github.com/hashicorp/serf/cmd/serf/command/agent.Agent).UseKey = github.com/hashicorp/serf/cmd/serf/command/agent.vfAgKey
+//vf:override (*github.com/hashicorp/serf/cmd/serf/command/agent.Agent).RemoveKey = github.com/hashicorp/serf/cmd/serf/command/agent.vfAgKey
+//vf:override (*github.com/hashicorp/serf/cmd/serf/command/agent.Agent).ListKeys = github.com/hashicorp/serf/cmd/serf/command/agent.vfAgListKeys
+//vf:override (*github.com/hashicorp/serf/cmd/serf/command/agent.Agent).Leave = github.com/hashicorp/serf/cmd/serf/command/agent.vfAgErr
+//vf:override (*github.com/hashicorp/serf/cmd/serf/command/agent.Agent).Shutdown = github.com/hashicorp/serf/cmd/serf/command/agent.vfAgErr
+//vf:override (*github.com/hashicorp/serf/cmd/serf/command/agent.Agent).Query = github.com/hashicorp/serf/cmd/serf/command/agent.vfAgQuery
+//vf:override (*github.com/hashicorp/serf/cmd/serf/command/agent.Agent).Stats = github.com/hashicorp/serf/cmd/serf/command/agent.vfAgStats
+//vf:override (*github.com/hashicorp/serf/cmd/serf/command/agent.Agent).RegisterEventHandler = github.com/hashicorp/serf/cmd/serf/command/agent.vfAgReg
+//vf:override (*github.com/hashicorp/serf/cmd/serf/command/agent.Agent).DeregisterEventHandler = github.com/hashicorp/serf/cmd/serf/command/agent.vfAgReg
+//vf:override (*github.com/hashicorp/serf/cmd/serf/command/agent.Agent).SetTags = github.com/hashicorp/serf/cmd/serf/command/agent.vfAgSetTags
+//vf:override (*github.com/hashicorp/serf/cmd/serf/command/agent.IPCClient).Send = github.com/hashicorp/serf/cmd/serf/command/agent.vfStubSend
+//vf:override github.com/hashicorp/memberlist.Create = github.com/hashicorp/serf/cmd/serf/command/agent.vfStubMlCreate
+//vf:override (*github.com/hashicorp/serf/serf.Serf).encodeTags = github.com/hashicorp/serf/cmd/serf/command/agent.vfStubEncodeTagsSmall
+//vf:unwind 24
+//vf:paths quick=400000 thorough=4000000
+//vf:bound inputs each of the 20 commands once on a handshaken connection, symbolic 64-bit sequence number, well-formed or undecodable body, agent operation succeeding or failing
+//vf:stub Agent operations (join, leave, keys, query, ...) -> arbitrary result; IPCClient.Send -> recorder; msgpack decoder -> queue; memberlist.Create -> nil
+//vf:nonative
+func VfC25_Seq() {
+	vfSent = nil
+	conf := &serf.Config{NodeName: "self", ProtocolVersion: 5, EventBuffer: 4, QueryBuffer: 4, DisableCoordinates: false,
+		Tags: map[string]string{"a": "1"}, MemberlistConfig: &memberlist.Config{Name: "self"}}
+	s, err := serf.Create(conf)
+	vfAssert("C25.seq.setup", err == nil && s != nil)
+	a := &Agent{conf: conf, agentConf: &Config{}, serf: s}
+	i := &AgentIPC{agent: a, logWriter: NewLogWriter(4)}
+	c := &IPCClient{name: "c", version: 1, eventStreams: map[uint64]*eventStream{}, pendingQueries: map[uint64]*serf.Query{}}
+	k := vfChoice("cmd", 20)
+	cmd := vfCommands[k]
+	malformed := vfBool("malformed")
+	hasBody := !(cmd == membersCommand || cmd == leaveCommand || cmd == listKeysCommand || cmd == statsCommand)
+	if malformed {
+		vfQueueDecode(&vfSentRec{})
+	} else {
+		switch cmd {
+		case handshakeCommand:
+			c.version = 0
+			vfQueueDecode(&handshakeRequest{Version: 1})
+		case authCommand:
+			vfQueueDecode(&authRequest{AuthKey: "x"})
+		case eventCommand:
+			vfQueueDecode(&eventRequest{Name: "e"})
+		case forceLeaveCommand:
+			vfQueueDecode(&forceLeaveRequest{Node: "n", Prune: vfBool("prune")})
+		case joinCommand:
+			vfQueueDecode(&joinRequest{Existing: []string{"p"}})
+		case membersFilteredCommand:
+			vfQueueDecode(&membersFilteredRequest{Name: "se.*"})
+		case installKeyCommand, useKeyCommand, removeKeyCommand:
+			vfQueueDecode(&keyRequest{Key: "k"})
+		case streamCommand:
+			vfQueueDecode(&streamRequest{Type: "user"})
+		case monitorCommand:
+			vfQueueDecode(&monitorRequest{LogLevel: "debug"})
+		case stopCommand:
+			vfQueueDecode(&stopRequest{Stop: 5})
+		case tagsCommand:
+			vfQueueDecode(&tagsRequest{Tags: map[string]string{"b": "2"}})
+		case queryCommand:
+			vfQueueDecode(&queryRequest{Name: "q", RequestAck: vfBool("ack")})
+		case respondCommand:
+			vfQueueDecode(&respondRequest{ID: 77})
+		case getCoordinateCommand:
+			vfQueueDecode(&coordinateRequest{Node: "self"})
+		}
+	}
+	seq := vfU64("seq")
+	herr := i.handleRequest(c, &requestHeader{Command: cmd, Seq: seq})
+	vfReach("C25.seq.done")
+	for _, r := range vfSent {
+		vfAssert("C25.seq.echo", r.hdr.Seq == seq)
+	}
+	if malformed && hasBody {
+		vfAssert("C25.seq.malformed.ends", herr != nil && len(vfSent) == 0)
+	} else {
+		vfAssert("C25.seq.exactly.one.reply", len(vfSent) == 1)
 	}
 }
